@@ -554,6 +554,91 @@ def _alias(shard, rec, pool):
                 owners[mid] = (obj, path)
             rec.count('returned_objects_registered')
     rec.count('mutable_members_registered', len(owners))
+    # an encode that failed half-way on an object must leave nothing on it:
+    # the caller repairs the attribute, encodes the SAME object again, and
+    # gets the bytes of a fresh equal object
+    from pamqp import commands, frame
+    from .. import refspec
+    for i, op in enumerate(pool):
+        if op['op'] != 'encode_method':
+            continue
+        sp = refspec.METHODS[op['index']]
+        cls = commands.INDEX_MAPPING[op['index']]
+        try:
+            fresh = frame.marshal(cls(**op['vals']), op['ch'])
+            obj = cls(**op['vals'])
+        except Exception:
+            continue
+        for n_, t_, _ in sp.args:
+            bad = {'bit': 'yes', 'table': 'not-a-table', 'shortstr': 7,
+                   'longstr': 7}.get(t_, 'NaN')
+            good = getattr(obj, n_)
+            setattr(obj, n_, bad)
+            try:
+                frame.marshal(obj, op['ch'])
+            except Exception:
+                pass
+            setattr(obj, n_, good)
+            rec.ev()
+            try:
+                again = frame.marshal(obj, op['ch'])
+            except Exception as e:
+                again = repr(e)
+            if again != fresh:
+                rec.violation('failed-encode-leaves-state-on-object',
+                              '%s: after a marshal that failed on argument '
+                              '%s (then repaired) the same object encodes '
+                              'differently from a fresh equal object'
+                              % (sp.name, n_),
+                              {'op': op, 'switch': False, 'prefix': [],
+                               'mechanism':
+                               'failed-encode-leaves-state-on-object'},
+                              observed=again if isinstance(again, str)
+                              else common.hexs(again),
+                              expected=common.hexs(fresh))
+                return
+            rec.count('fail_repair_encode_probes')
+    # exceptions raised by separate failed calls are separate objects whose
+    # traceback does not remember earlier failures
+    def _tb_len(e):
+        n, tb = 0, e.__traceback__
+        while tb is not None:
+            n, tb = n + 1, tb.tb_next
+        return n
+    for i, op in enumerate(pool):
+        if not op['op'].startswith(('decode', 'encode')):
+            continue
+        excs = []
+        ops.KEEP_EXC = excs
+        try:
+            for _ in range(4):
+                try:
+                    with sysmon.budget(400000, 400000):
+                        ops.run_op(op)
+                except sysmon.BudgetExceeded:
+                    break
+        finally:
+            ops.KEEP_EXC = None
+        if len(excs) < 4:
+            continue
+        rec.ev()
+        case = {'op': op, 'switch': False, 'prefix': [[False, op]] * 3,
+                'mechanism': 'shared-exception-object'}
+        if any(a is b for k, a in enumerate(excs) for b in excs[k + 1:]):
+            rec.violation('shared-exception-object',
+                          'separate failed %s calls raised the SAME '
+                          'exception object (%s)' % (op['op'],
+                                                     type(excs[0]).__name__),
+                          case)
+            return
+        if _tb_len(excs[3]) > _tb_len(excs[0]) + 2:
+            rec.violation('exception-remembers-earlier-failures',
+                          'the traceback of the 4th identical failure of %s '
+                          'has %d entries, the first had %d'
+                          % (op['op'], _tb_len(excs[3]), _tb_len(excs[0])),
+                          case)
+            return
+        rec.count('exception_identity_probes')
     # mutate-and-observe
     for i, op in enumerate(pool):
         if op['op'] not in ('construct', 'construct_props',
